@@ -1057,6 +1057,7 @@ def _generate_structure_virtual_field_methods(enclosing_type_name, field_ir, ir)
         ).rendered
         write_methods = code_template.format_template(
             _TEMPLATES.structure_single_virtual_field_write_methods,
+            name=field_ir.name.canonical_name.object_path[-1],
             logical_type=logical_type,
             destination=destination,
             transform=transform,
